@@ -330,3 +330,54 @@ def replay(ctx, flags, hargs, cfg):
     ctx.cov["evaluations"] = sum(len(x["steps"]) for x in hists)
     ctx.cov["rule"] = "replay of one recorded history"
     return True
+
+
+# ---------------------------------------------------------------- independent spec oracle (Python)
+import store_oracle as so
+
+
+def oracle_failures(seed, hargs, hists, c01, c02, c09, limit=3):
+    """disagreements between the implementation's observations and the Python reading of the SPEC"""
+    out = []
+    for h in hists:
+        r = so.check_history(h, c01, c02, c09)
+        if r is None:
+            continue
+        step, comp, detail = r
+        v = {"kind": "spec-oracle-vs-implementation", "history": h["idx"], "seed": seed, "step": step, "component": comp,
+             "operations": [s["op"] for s in h["steps"][:step + 1]], "universe": h["strs"]}
+        if comp in ("c02", "c09"):
+            args = ["-mode", "detail", "-seed", seed, "-hist", h["idx"], "-step", step] + hargs
+            if comp == "c09":
+                args += ["-spec", json.dumps({"qs": detail["qs"], "los": detail["los"]}), "-ne"]
+            rows = [x for x in hstore(args) if x.get("kind") == "lookup"]
+            sp = so.state_at(h, step)
+            graphs = [g for g in sp.heap if g] if comp == "c09" else sp.heap
+            fails = []
+            for x in rows:
+                want = sp.lookup(x["q"], x["lo"], graphs[x["graph"]])
+                if want != x["enc"]:
+                    fails.append({"query": describe_query(x["q"], h), "options": x["lo"], "implementation": x["enc"],
+                                  "spec": want})
+            v["failing_lookups"] = fails[:5]
+        else:
+            v["detail"] = detail
+        out.append(v)
+        if len(out) >= limit:
+            break
+    return out
+
+
+def oracle_check(ctx, seed, hargs, hists, c01, c02, c09):
+    for v in oracle_failures(seed, hargs, hists, c01, c02, c09):
+        ctx.violation(v)
+
+
+def oracle_search(ctx, flags, hargs, cfg, n=150):
+    """failing-input search without the Coq model (used when an obligation or the build is broken)"""
+    try:
+        hists = hstore(["-mode", "hist", "-n", n, "-seed", ctx.seed] + flags + hargs)
+        fails = oracle_failures(ctx.seed, hargs, hists, *cfg, limit=1)
+    except Exception:
+        return None
+    return fails[0] if fails else None
